@@ -321,3 +321,8 @@ def run(chk, S: Session):
     borrow(chk, S, rb4, "C08", lambda r, c: r == "R-C08-5" and c.startswith("reversal with solve_triu=linalg.") and "error_state_std" in c)
     rb3 = chk.rule("R-C07-B3", "'computed from the previous mean only': the first attempt extrapolates from the state that solver.init returns, which is the updated one when an initial constraint is given (rule of C02)", floor=3)
     borrow(chk, S, rb3, "C02", lambda r, c: r == "R-C02-2" and "init" in c)
+    # an option passed to a constructor arrives in the attribute of its own name (the rules above read options through those attributes)
+    from .ctor_wiring import ctor_wiring_rules
+
+    rcw = chk.rule("R-C07-W", "constructor wiring of the error estimators: every attribute that carries a constructor parameter's name holds that parameter, not another one", floor=8)
+    ctor_wiring_rules(chk, S, rcw, [c.qualname for c in S.p.subclasses(SOLVERS + ".ErrorEstimator")])
